@@ -83,6 +83,8 @@ type Supply interface {
 
 	// Reserve accounts for CPU grants after reloading cached allocations.
 	Reserve(Grant, *libmem.Offer) (map[string]libmem.NodeMask, error)
+	// Restore accounts for a CPU grant that was released a moment ago.
+	Restore(Grant, *libmem.Offer) (map[string]libmem.NodeMask, error)
 	// DumpCapacity returns a printable representation of the supply's resource capacity.
 	DumpCapacity() string
 	// DumpAllocatable returns a printable representation of the supply's alloctable resources.
@@ -470,6 +472,17 @@ func (cs *supply) ReleaseCPU(g Grant) {
 }
 
 func (cs *supply) Reserve(g Grant, o *libmem.Offer) (map[string]libmem.NodeMask, error) {
+	return cs.reserve(g, o, true)
+}
+
+// Restore puts a grant back that was released a moment ago (a refused update). The
+// state it restores was in effect before, so unlike Reserve it does not ask what
+// other pools need.
+func (cs *supply) Restore(g Grant, o *libmem.Offer) (map[string]libmem.NodeMask, error) {
+	return cs.reserve(g, o, false)
+}
+
+func (cs *supply) reserve(g Grant, o *libmem.Offer, checkPools bool) (map[string]libmem.NodeMask, error) {
 	if g.CPUType() == cpuNormal {
 		isolated := g.IsolatedCPUs()
 		exclusive := g.ExclusiveCPUs().Difference(isolated)
@@ -488,9 +501,11 @@ func (cs *supply) Reserve(g Grant, o *libmem.Offer) (map[string]libmem.NodeMask,
 		}
 		// Like an allocation, a reinstated grant must leave the pools it takes
 		// CPUs from enough sharable CPUs for what is granted in them.
-		if pool := cs.shortWithout(exclusive); pool != nil {
-			return nil, policyError("can't reserve exclusive CPUs (%s) of %s, %s needs them",
-				exclusive.String(), g.String(), pool.Name())
+		if checkPools {
+			if pool := cs.shortWithout(exclusive); pool != nil {
+				return nil, policyError("can't reserve exclusive CPUs (%s) of %s, %s needs them",
+					exclusive.String(), g.String(), pool.Name())
+			}
 		}
 		cs.isolated = cs.isolated.Difference(isolated)
 		cs.sharable = cs.sharable.Difference(exclusive)
